@@ -181,7 +181,53 @@ func runHistory(t *rapid.T, c *ev.Case) {
 		exec(h, hist.Op{Kind: "write", Points: ps})
 		doRead(t)
 	}
+	// a run of consecutive timestamps of one series (9-30 rows): with max-rows-per-segment = 8 its chunk has several segments, so that
+	// read ranges start / end inside, on and between segments, and runs written later overlap flushed ones segment by segment
+	writeRun := func(t *rapid.T) {
+		mst := rapid.SampledFrom(msts).Draw(t, "runmst")
+		tags := rapid.SampledFrom(tagSets).Draw(t, "runtags")
+		start := rapid.IntRange(0, 45).Draw(t, "runstart")
+		n := rapid.IntRange(9, min(30, 63-start)).Draw(t, "runlen")
+		var ps []hist.PointJ
+		for k := 0; k < n; k++ {
+			if rapid.IntRange(0, 9).Draw(t, "rungap") == 0 {
+				continue
+			}
+			p := hist.PointJ{Mst: mst, Tags: tags, T: start + k, Fields: map[string]string{}}
+			mask := 15
+			if rapid.IntRange(0, 2).Draw(t, "runpartial") == 0 {
+				mask = rapid.IntRange(1, 15).Draw(t, "fieldmask")
+			}
+			for i, n := range hist.FieldNames {
+				if mask&(1<<i) == 0 {
+					continue
+				}
+				g.counter++
+				switch n {
+				case "i":
+					p.Fields[n] = fmt.Sprint(g.counter)
+				case "f":
+					p.Fields[n] = fmt.Sprintf("%g", float64(g.counter)+0.25)
+				case "s":
+					p.Fields[n] = fmt.Sprintf("v%d", g.counter)
+				default:
+					p.Fields[n] = fmt.Sprint(g.counter%2 == 0)
+				}
+			}
+			ps = append(ps, p)
+		}
+		if start+n-1 > g.maxT {
+			g.maxT = start + n - 1
+		}
+		if len(ps) == 0 {
+			t.Skip("empty run")
+		}
+		c.Class("dense-run-written")
+		exec(h, hist.Op{Kind: "write", Points: ps})
+		doRead(t)
+	}
 	actions := map[string]func(*rapid.T){
+		"writeRun": writeRun,
 		"write":  write,
 		"write2": write,
 		"write3": write,
